@@ -16,8 +16,9 @@ LEVEL_TEXT = ("Theorems c12_generated_exact / c12_flu_exact / c12_ftha_exact / c
               "every lookup reports a hit exactly for the keys present and returns that key's entry; c12_presorted_invariant "
               "/ c12_presorted_refines: for every history of find / find(answer) / at / insert / insert(range) / clear the "
               "modelled set answers like a sorted list of unique keys, never accesses memory outside its allocated block and "
-              "keeps size <= rsize (induction over the history with the abstraction firstn _sz _arr); the stale iterator "
-              "returned by a reallocating insert and three constructor corner cases are characterised and exhibited. "
+              "keeps size <= rsize (induction over the history with the abstraction firstn _sz _arr), the iterator returned by "
+              "insert always designating the inserted element (c12_insert_never_stale, c12_insert_position; the routine before "
+              "5f81ca8 is kept as a refutation witness); three constructor corner cases are characterised and exhibited. "
               "Sortedness / uniqueness of every dumped table (the theorems' hypothesis) is evaluated on each run.")
 LEVEL_NOTE = ("Trusted: Coq kernel, extraction, the hand transcriptions (checked by the correspondence run), harness/driver "
               "glue, std::map modelled as a first-wins association list, ASan/UBSan trapping accesses outside the exactly "
@@ -46,7 +47,8 @@ RULE = ("tables dumped from the real metadata on each run (UTEST; thorough: also
         "every name plus near-miss names; random histories (length <= 200, keys from a small range so duplicates and "
         "re-allocation both occur) on presorted_set<unsigned short, FieldTrait, FieldTrait::Compare> (array, empty and hash-array "
         "constructors) and on a generic instantiation presorted_set<short, GElem, Less>; histories that never insert into a "
-        "full set are kept apart from those that do (known stale-iterator finding). non-trivial = range >= 100 tags on a table with "
+        "full set are kept apart from those that do (the growing insert, whose iterator was stale before 5f81ca8); the iterator "
+        "returned by insert is compared by index AND by the element it points to, in the growing case too. non-trivial = range >= 100 tags on a table with "
         ">= 2 entries, >= 3 string probes, or a history with >= 5 operations including an insert; distinct = distinct case lines")
 
 _STATE = {}
